@@ -290,9 +290,10 @@ func init() {
 		}
 		resume := resumeAt()
 		idx := 0
+		hung := false
 		run := func(role string, in []byte) {
 			idx++
-			if idx < resume {
+			if idx < resume || hung {
 				return
 			}
 			announce(idx, role+" "+hexShort(in))
@@ -331,8 +332,11 @@ func init() {
 				} else if strings.HasPrefix(err.Error(), "PANIC") {
 					r.Fail("handshake-panic", "%s on input %s: %v", role, hexShort(in), err)
 				}
-			case <-time.After(10 * time.Second):
-				r.Fail("handshake-hangs", "%s did not return within 10 s on input %s (peer closed the connection)", role, hexShort(in))
+			case <-time.After(45 * time.Second): // (the handshake's own read timeout is 1 s; this only separates "returns" from "never returns")
+				r.Fail("handshake-hangs", "%s did not return within 45 s on input %s (peer closed the connection)", role, hexShort(in))
+				// the stuck goroutine may be spinning: do not pile up more of them
+				r.Exhaustive, r.Cap = false, "stopped at the first input on which the handshake did not return"
+				hung = true
 			}
 			b.Close()
 		}
@@ -402,7 +406,15 @@ func captureFirstMessages(hs gen.NetworkHandshake) (start, accept []byte) {
 	rec := &recConn{Conn: d}
 	go func() { hs.Accept(fakeNode{}, rec, gen.HandshakeOptions{Cookie: "secret"}) }()
 	go func() { hs.Start(fakeNode{}, c, gen.HandshakeOptions{Cookie: "secret"}) }()
-	time.Sleep(200 * time.Millisecond)
+	for i := 0; i < 20000; i++ { // until the acceptor has written its first message (normally a few hundred microseconds)
+		rec.mu.Lock()
+		n := len(rec.writes)
+		rec.mu.Unlock()
+		if n > 0 {
+			break
+		}
+		time.Sleep(time.Millisecond)
+	}
 	c.Close()
 	d.Close()
 	rec.mu.Lock()
